@@ -25,9 +25,9 @@ def run(ctx):
             if n == 7:
                 ctx.sample({"replay_case": {k: rec[k] for k in ("o", "ftol", "start", "kinds", "done", "nfunc")}})
     ctx.cov["replayed_cases"] += n
-    if not {"reflect", "expand", "contract"} <= kinds:
+    if not {"reflect", "expand", "contract", "shrink"} <= kinds:
         raise vf.EngineError("vacuous Nelder-Mead model: step kinds exercised = %s" % sorted(kinds))
-    ctx.notes.append("Nelder-Mead step kinds exercised by the model: %s (shrink steps do not occur on these convex quadratics)" % sorted(kinds))
+    ctx.notes.append("Nelder-Mead step kinds exercised by the model: %s (shrink steps come from the two-well objectives)" % sorted(kinds))
     exe = ctx.harness("c11")
     trace = os.path.join(ctx.work, "trace.ndjson")
     rc, o, err = vf.run_exe([exe, "run", vec, str(ctx.seed), ctx.tier, trace], timeout=3300)
